@@ -44,6 +44,7 @@ func TemplateFromCert(ctx context.Context, cert *x509.Certificate, pubKey any) (
 	var subjectCn string
 	var subjectSerial *big.Int
 	var timestamp time.Time
+	validDays := styp.SignValidDays
 
 	template := *cert // copy the root certificate
 	template.PublicKey = pubKey
@@ -62,6 +63,7 @@ func TemplateFromCert(ctx context.Context, cert *x509.Certificate, pubKey any) (
 		subjectCn = bc.RootKeyCommonName
 		subjectSerial = bc.RootKeySerial
 		timestamp = bc.Now
+		validDays = styp.RootValidDays
 		template.Issuer.CommonName = bc.RootKeyCommonName
 		template.Issuer.SerialNumber = subjectSerial.String()
 	} else {
@@ -77,6 +79,10 @@ func TemplateFromCert(ctx context.Context, cert *x509.Certificate, pubKey any) (
 	template.Subject.CommonName = subjectCn
 	template.Subject.SerialNumber = subjectSerial.String()
 	template.NotBefore = timestamp
-	template.NotAfter = timestamp.Add(time.Duration(styp.SignValidDays) * 24 * time.Hour)
+	template.NotAfter = timestamp.Add(time.Duration(validDays) * 24 * time.Hour)
+	// The certificate serial number follows the subject serial number, as in the Google template.
+	if subjectSerial != nil {
+		template.SerialNumber = new(big.Int).Set(subjectSerial)
+	}
 	return &template, nil
 }
